@@ -62,6 +62,12 @@ def seeds():
     }
 
 
+def long_seeds():
+    api = snapshot.api()
+    D = api.Decimal
+    return {'slong': 'ab ' * 4000, 'llong': [D(1)] * 300, 'sdeep': [[[[[[[[D(1)]]]]]]]], 'dlong': {str(i): D(i) for i in range(200)}}
+
+
 LAMBDA_ARGS = ['v => v', 'v => 1', '(a, b) => a', 'v => [v]', '(a, b) => {"k": a}']
 REDUCED3 = ['none', 'd1', 'sab', 'sattr', 'sfmt', 'l12', 'lt', 'da', 'dn', 't', 'true', 's12', 'lab', 'sre']
 
@@ -292,6 +298,22 @@ def work(task):
                     run_program(res, text, nm, [name, fa])
             res.count('foreign_names')
         return res
+    if kind == 'long':
+        ls = long_seeds()
+        for fname in sorted(api.FUNCTIONS):
+            for la, a0 in ls.items():
+                for second in (None, 'sab', 'sre', 'd1', 'λ0'):
+                    names = {'a0': a0}
+                    argn = ['a0']
+                    if second is not None:
+                        if second.startswith('λ'):
+                            argn.append(LAMBDA_ARGS[0])
+                        else:
+                            names['a1'] = sd[second]
+                            argn.append('a1')
+                    for text in programs_for(fname, argn)[:2]:
+                        run_program(res, text, names, [la, second])
+        return res
     if kind == 'failing':
         for text in FAILING_SOURCES:
             run_program(res, text, {'x': 1}, ['failing source'])
@@ -397,6 +419,7 @@ def main(tier, seed, t0):
             fn_ = foreign_names()
             tasks += [('foreign', fn_[i:i + 12]) for i in range(0, len(fn_), 12)]
             tasks.append(('failing',))
+            tasks.append(('long',))
         tasks = runner.rotate([t for t in tasks if t], seed)
         r = runner.run_tasks(work, tasks, selftest=(rounds == 1))
         new = {}
